@@ -10,6 +10,39 @@ about the ℝ instance of `Spdc/Model/Crystals.lean`, the model whose Float inst
 namespace Spdc.Props.C01
 open Spdc Spdc.Crystals
 
+/-! ## T1 — canonical pole form
+
+Every Sellmeier equation of the crate is `A' + Σₖ Pₖ/(λ² − Cₖ) − D·λ²`.  `sellA`, `sellP`, `sellG`
+are literally of that form; the other shapes the code uses are rewritten here.  (The sign and pole
+conditions `Pₖ > 0`, `D ≥ 0`, `Cₖ` outside the window are discharged per crystal and axis in
+`Spdc/Real/CrystalAxes.lean`, which is what T2 rests on.) -/
+
+theorem nSq_canonical (A B C D P C1 C2 B1 B2 c1 c2 x l : ℝ) :
+    (x ≠ C → sellB A B C D x = (A + B) + B * C / (x - C) - D * x) ∧
+    (x ≠ C1 → sellK A B C1 P C2 x = (A + B) + B * C1 / (x - C1) + P / (x - C2)) ∧
+    (l ≠ 0 → l * l ≠ c1 * c1 → l * l ≠ c2 * c2 →
+      sellInv A B1 c1 B2 c2 l =
+        (A + B1 + B2) + B1 * (c1 * c1) / (l * l - c1 * c1) + B2 * (c2 * c2) / (l * l - c2 * c2)) ∧
+    (x ≠ c1 → x ≠ c2 →
+      sellStd A B1 B2 0.0 c1 c2 0.0 x = (A + B1 + B2) + B1 * c1 / (x - c1) + B2 * c2 / (x - c2)) := by
+  refine ⟨fun h => ?_, fun h => ?_, fun h0 h1 h2 => ?_, fun h1 h2 => ?_⟩
+  · have : x - C ≠ 0 := sub_ne_zero.mpr h
+    simp only [sellB]; field_simp; ring
+  · have : x - C1 ≠ 0 := sub_ne_zero.mpr h
+    simp only [sellK, mul_div_sub_eq this]; ring
+  · have e1 : l * l - c1 * c1 ≠ 0 := sub_ne_zero.mpr h1
+    have e2 : l * l - c2 * c2 ≠ 0 := sub_ne_zero.mpr h2
+    have d1 : (1 : ℝ) - c1 / l * (c1 / l) = (l * l - c1 * c1) / (l * l) := by field_simp
+    have d2 : (1 : ℝ) - c2 / l * (c2 / l) = (l * l - c2 * c2) / (l * l) := by field_simp
+    simp only [sellInv, sqr, lit_one, d1, d2, div_div_eq_mul_div, mul_div_sub_eq e1,
+      mul_div_sub_eq e2]
+    ring
+  · have e1 : x - c1 ≠ 0 := sub_ne_zero.mpr h1
+    have e2 : x - c2 ≠ 0 := sub_ne_zero.mpr h2
+    simp only [sellStd, lit_zero, zero_div, add_zero]
+    field_simp
+    ring
+
 /-! ## T2 — strictly decreasing in wavelength; T3 — physical bounds
 
 `Tmin = 223.15 K`, `Tmax = 473.15 K` are −50 °C and 200 °C; wavelengths in metres inside the declared
